@@ -209,6 +209,30 @@ pub fn stress_family() -> Vec<(String, Case)> {
         }
         v.push(stress("history-66000-v9-packets", h9));
         v.push(stress("history-66000-ipfix-messages", h10));
+        // ... and 66,000 redefinitions of one id (two layouts in turn, data after each)
+        for proto in [Proto::V9, Proto::Ipfix] {
+            for kinds in [false, true] {
+                let mut h = vec![];
+                for i in 0..66_000u32 {
+                    let mut d = plain(vec![(1, if i % 2 == 0 { 4 } else { 8 })]);
+                    if kinds && i % 2 == 1 {
+                        // alternate between a template and an options template of the same id
+                        d = Def { kind: Kind::Options, scope_n: 1, fields: vec![FieldSpec { ie: 1, len: 4, ent: None }, FieldSpec { ie: 2, len: 4, ent: None }] };
+                    }
+                    let mut r = W::default();
+                    enc_template_record(&mut r, proto, 300, &d);
+                    let mut b = W::default();
+                    let pad = (4 - r.0.len() % 4) % 4;
+                    enc_set(&mut b, template_set_id(proto, d.kind), &r.0, pad);
+                    b.bytes(&data_set(300, 8, 3));
+                    h.push(match proto {
+                        Proto::V9 => v9_pkt(2, &b.0),
+                        Proto::Ipfix => ipfix_msg(&b.0),
+                    });
+                }
+                v.push(stress(&format!("history-66000-redefinitions-{}-{}", if proto == Proto::V9 { "v9" } else { "ipfix" }, if kinds { "alternating-kinds" } else { "two-layouts" }), h));
+            }
+        }
     }
     // chain of ipfix messages that each carry data under a cached template
     {
